@@ -297,6 +297,12 @@ def run_case(case):
         "fx_1d": (lambda s: s[0], good),
         "fx_3d": (lambda s: s[None], good),
         "d_mismatch": (lambda s: s[:, :2], good),
+        # broadcast-compatible mismatches (seed C17-s5): one trailing dimension equal to one
+        "d_fx_is_1": (lambda s: s[:, :1], good),
+        "d_fx_is_1_rows": (lambda s: jnp.sum(s, axis=1, keepdims=True)[:1] * jnp.ones((4, 1)), good),
+        "d_x_is_1": (lambda s: jnp.tile(s, (1, 3)), jnp.ones((2, 1))),
+        "d_x_is_1_rows": (lambda s: jnp.tile(s[:1], (3, 2)), jnp.ones((2, 1))),
+        "d_fx_larger": (lambda s: jnp.concatenate([s, s], axis=1), good),
         "fx_list": (lambda s: [s], good),
         "fx_tuple": (lambda s: (s, s), good),
         "x_list": (lambda s: s, [[1.0, 2.0, 3.0]]),
